@@ -69,6 +69,12 @@ def make_case(seed, tier):
         if rng.random() < 0.6 or c['engines'] == 1:
             # a fresh instance comes up some (virtual) seconds later
             f['restart_after'] = rng.choice([0, 1, 5, 20, 70])
+        if rng.random() < 0.4:
+            # biased: the instance dies while it is executing this job
+            f['kind'] = 'crash_in_job'
+            f['tag'] = 'j%d' % rng.randrange(len(jobs))
+            f['nth'] = rng.choice([0, 0, 0, 1])
+            del f['at_step'], f['node']
         faults.append(f)
     if rng.random() < 0.2:
         faults.append({'at_step': rng.randint(3, 80), 'kind': 'stall',
@@ -98,6 +104,8 @@ class Runner13(runner.Runner):
         sim = self.sim
         w = self.world
         w.invocations = []
+        w.invoke_hook = self._on_invoke
+        self.crash_now = []
         self.sched_log = []     # (tag, job id, execute_at, node)
         self.captures = []      # (job id, captured_at, node, won, step)
         self.queries = []
@@ -109,9 +117,12 @@ class Runner13(runner.Runner):
             self._spawn_query(q)
         self.pending_ops = []
         self.pending_faults = sorted(
-            [dict(f, _i=i) for i, f in enumerate(case.get('faults') or [])],
+            [dict(f, _i=i) for i, f in enumerate(case.get('faults') or [])
+             if f['kind'] != 'crash_in_job'],
             key=lambda o: (o.get('at_step', 0), o['_i']))
-        if self.pending_faults:
+        self.in_job_faults = [dict(f) for f in case.get('faults') or []
+                              if f['kind'] == 'crash_in_job']
+        if self.pending_faults or self.in_job_faults:
             sim.monitors.append(self._inject_due)
         self.end_at = sim.now + datetime.timedelta(seconds=case['horizon'])
         # a sentinel timer so that the clock is driven to the horizon
@@ -252,6 +263,25 @@ class Runner13(runner.Runner):
 
         sim.spawn('client:query', client, node=node, kind='client')
 
+    def _on_invoke(self, rec):
+        # runs inside the task that executes the job; the crash itself is
+        # carried out by the monitor at the job's next yield point
+        n = len([r for r in self.world.invocations
+                 if r['tag'] == rec['tag']]) - 1
+        for f in self.in_job_faults:
+            if f['tag'] == rec['tag'] and f.get('nth', 0) == n and \
+                    not f.get('_fired') and rec['node']:
+                f['_fired'] = True
+                self.crash_now.append(dict(f, kind='crash',
+                                           node=rec['node']))
+
+    def _inject_due(self, sim):
+        while self.crash_now:
+            f = self.crash_now.pop(0)
+            sim.count('fault:crash_in_job')
+            self.inject_fault(f)
+        runner.Runner._inject_due(self, sim)
+
     def inject_fault(self, f):
         from mistralsim import faults as fmod
         fmod.inject(self, f)
@@ -318,7 +348,7 @@ def evaluate(case, res):
     default = cfg['scheduler_type'] == 'default'
     timeout = opts['scheduler.captured_job_timeout']
     faults = case.get('faults') or []
-    crashed = any(f['kind'] == 'crash' for f in faults)
+    crashed = any(f['kind'] in ('crash', 'crash_in_job') for f in faults)
     stalled = any(f['kind'] == 'stall' for f in faults)
     jumped = any(f['kind'] == 'clock_jump' for f in faults)
     sig = ' '.join(sorted(set(
@@ -354,13 +384,19 @@ def evaluate(case, res):
                                 tag, s['execute_at'], r['at']), sig))
         # the scheduling node may have died before the commit: then the job
         # is not committed after all (client task killed)
-        if not runs:
+        if not [r for r in runs if r['done']]:
+            # at least once = some invocation ran to its end: an instance
+            # that dies half way through a job leaves it captured in the
+            # store, and another instance takes it over after the timeout
             if alive_at_end and not (crashed and not default):
                 out.append(('C13.never_ran',
                             'committed job %s (execute_at %s) was never '
-                            'invoked within %ds' % (tag, s['execute_at'],
-                                                    case['horizon']), sig))
-            continue
+                            'invoked to completion within %ds (%d '
+                            'invocations cut short by a crash)' % (
+                                tag, s['execute_at'], case['horizon'],
+                                len(runs)), sig))
+            if not runs:
+                continue
         if len(runs) > 1:
             caps = sorted([c for c in res.extra['captures']
                            if c['id'] == s['id'] and c['won']],
